@@ -69,7 +69,7 @@ def predict(ctx, coll_exe, n, rng, topo, known):
     sets = [list(range(rng[0], rng[1] + 1)), list(range(rng[2], rng[3] + 1))]
     obj = dict(property='C13', engine='vranks', scenario='mp-predict', topology=topo, N=n, root=0, outputs=2, variant=0, sets=sets, message='')
     p = os.path.join(vlib.OUT, 'res', 'C13-mp-predict-%d-%d-%s.json' % (n, topo, '-'.join(map(str, rng))))
-    json.dump(obj, open(p, 'w'))
+    json.dump(obj, open(p, 'w'), separators=(',', ':'))
     r = subprocess.run([coll_exe, '--replay', p, '--known-topos', '6'], capture_output=True, text=True)   # 6: ask for attributability itself
     os.unlink(p)
     if 'replay: the case passes' in r.stdout:
